@@ -1293,6 +1293,17 @@ Proof.
   - apply (holds_frame d d' _ _ R T2 F). intros x Hx. apply Hn. change (lenZ tag_dEnD) with 4 in Hx. lia.
 Qed.
 
+(* only the two tags and the end pointer matter *)
+Lemma chunk_at_frame_hdr d d' c R : chunk_at d c -> frame d d' R ->
+  (forall x, cstart c <= x < cstart c + HDR \/ cend c <= x < cend c + 4 -> ~ R x) -> chunk_at d' c.
+Proof.
+  intros (G1 & G2 & S & T1 & P & T2) F Hn. unfold HDR in *.
+  split; [exact G1|]. split; [exact G2|]. split; [exact S|]. split; [|split].
+  - apply (holds_frame d d' _ _ R T1 F). intros x Hx. apply Hn. change (lenZ tag_DaTa) with 4 in Hx. lia.
+  - apply (holds_frame d d' _ _ R P F). intros x Hx. apply Hn. rewrite lenZ_dp_enc in Hx. lia.
+  - apply (holds_frame d d' _ _ R T2 F). intros x Hx. apply Hn. change (lenZ tag_dEnD) with 4 in Hx. lia.
+Qed.
+
 Lemma table_at_frame d d' t es R : table_at d t es -> frame d d' R ->
   (forall x, addr t <= x < addr t + 20 + 24 * lenZ es -> ~ R x) -> table_at d' t es.
 Proof.
@@ -1966,17 +1977,19 @@ Proof.
   pose proof Hc as (G1 & _ & Sc & _). pose proof (gp_addr _ G1) as Ba. pose proof (csize_addr c) as Ecs.
   pose proof (sizes_pos_cap _ Ppre) as Hpre. unfold HDR in *.
   assert (Ha : 0 <= a) by (unfold a, cstart; lia).
-  assert (F : frame d d1 (fun y => cstart c + 16 <= y < cend c)).
+  assert (Fa : frame d d1 (fun y => a <= y < a + lenZ bs)).
   { intros y Hy. unfold d1. rewrite dget_dput by auto.
-    destruct (Z.leb_spec a y), (Z.ltb_spec y (a + lenZ bs)); cbn [andb]; auto. exfalso. apply Hy. unfold a in *. lia. }
+    destruct (Z.leb_spec a y), (Z.ltb_spec y (a + lenZ bs)); cbn [andb]; auto. exfalso. apply Hy. lia. }
+  assert (F : frame d d1 (fun y => cstart c + 16 <= y < cend c)).
+  { eapply frame_weaken; [exact Fa|]. intros y Hy. unfold a in *. lia. }
   split; [|split; [exact F|]].
-  - rewrite Forall_forall in *. intros c' I'. apply (chunk_at_frame d d1 c' _ (C c' I') F).
+  - rewrite Forall_forall in *. intros c' I'. apply (chunk_at_frame_hdr d d1 c' _ (C c' I') F).
     intros x Hx Hx'. unfold cs in I'. apply in_app_or in I'. destruct I' as [I'|[E|I']].
-    + pose proof (pdisj_mid pre c rest PD c' (or_introl I')) as Dj. unfold disj, ext, in_ext in *. cbn [fst snd] in *. lia.
-    + subst c'. pose proof (C c (in_app_mid pre c rest)) as (_ & _ & _ & T1 & P1 & T2). unfold in_ext in Hx.
-      (* inside the chunk itself: the written bytes are data bytes, not the tags / pointer *)
-      exfalso. clear -Hx Hx' Ecs. lia.
-    + pose proof (pdisj_mid pre c rest PD c' (or_intror I')) as Dj. unfold disj, ext, in_ext in *. cbn [fst snd] in *. lia.
+    + pose proof (C c' ltac:(unfold cs; apply in_or_app; auto)) as (_ & _ & Sc' & _). pose proof (csize_addr c') as Ecs'.
+      pose proof (pdisj_mid pre c rest PD c' (or_introl I')) as Dj. unfold disj, ext in *. cbn [fst snd] in *. unfold HDR in *. lia.
+    + subst c'. unfold HDR in *. lia.
+    + pose proof (C c' ltac:(unfold cs; apply in_or_app; right; right; auto)) as (_ & _ & Sc' & _). pose proof (csize_addr c') as Ecs'.
+      pose proof (pdisj_mid pre c rest PD c' (or_intror I')) as Dj. unfold disj, ext in *. cbn [fst snd] in *. unfold HDR in *. lia.
   - intros x Hx. unfold over, absb. destruct (Z.ltb_spec x 0); [lia|].
     destruct (Z.leb_spec rel x), (Z.ltb_spec x (rel + lenZ bs)); cbn [andb].
     + (* x is one of the bytes of the element *)
@@ -1984,16 +1997,16 @@ Proof.
       unfold HDR, a. destruct (Z.leb_spec (cstart c + 16 + (rel - cap_of pre)) (cstart c + 16 + (x - cap_of pre))); [|lia].
       destruct (Z.ltb_spec (cstart c + 16 + (x - cap_of pre)) (cstart c + 16 + (rel - cap_of pre) + lenZ bs)); [|lia].
       cbn [andb]. do 2 f_equal. lia.
-    + destruct (phys cs x) as [b|] eqn:E; auto. apply F. intros Hb'.
+    + destruct (phys cs x) as [b|] eqn:E; auto. apply Fa. intros Hb'. unfold a in Hb'.
       destruct (Z.lt_ge_cases x (cap_of pre + csize c)).
       * unfold cs in E. rewrite (phys_app pre c rest x) in E by (auto; lia). inversion E; subst b.
-        unfold d1 in *. clear F. unfold HDR in *. exfalso. lia.
+        unfold HDR in *. lia.
       * unfold cs in E. rewrite (phys_post pre c rest x) in E by (auto; lia).
         assert (Prest : sizes_pos rest).
         { unfold sizes_pos, cs in *. apply Forall_app in Psz. destruct Psz as [_ Q]. inversion Q; auto. }
         destruct (phys_in rest _ b Prest ltac:(lia) E) as (c' & I' & B').
         pose proof (pdisj_mid pre c rest PD c' (or_intror I')) as Dj. unfold disj, ext in Dj. cbn [fst snd] in Dj. unfold HDR in *. lia.
-    + destruct (phys cs x) as [b|] eqn:E; auto. apply F. intros Hb'.
+    + destruct (phys cs x) as [b|] eqn:E; auto. apply Fa. intros Hb'. unfold a in Hb'.
       destruct (Z.lt_ge_cases x (cap_of pre)).
       * assert (E' : phys pre x = Some b).
         { destruct (phys_some pre Ppre x ltac:(lia)) as (b' & Eb'). rewrite (phys_app_l pre (c :: rest) x b' Eb') in E. congruence. }
